@@ -1,7 +1,7 @@
 #[cfg(test)]
 mod tests;
 
-use std::{thread};
+use std::{panic, thread};
 use std::sync::{Arc, mpsc, Mutex};
 
 pub struct ThreadPool {
@@ -68,7 +68,10 @@ impl Worker {
 
                     println!("Worker {} got a job; executing.", id);
 
-                    job();
+                    let boxed_execution = panic::catch_unwind(panic::AssertUnwindSafe(job));
+                    if boxed_execution.is_err() {
+                        eprintln!("Worker {} -> job panicked, worker continues to serve", id);
+                    }
                 }
 
             }
